@@ -90,7 +90,8 @@ def run(ctx):
                        {"kind": "spec", "trace": [dict(s.get("act", {})) for _, s in res.trace()]})
             return rep.finish()
         cov = res.coverage()
-        zero = [a for a in ACTIONS if a not in cov or cov[a][1] == 0]
+        need = ACTIONS if n >= 2 else ACTIONS[:4]          # a single pool executes the USE itself: it is never being replaced
+        zero = [a for a in need if a not in cov or cov[a][1] == 0]
         if zero:
             raise tlc.MachineryError("actions never taken (NPools=%d): %s" % (n, zero))
         # ---- spec -> code: every edge of the graph (every configuration, every order)
